@@ -19,6 +19,7 @@ func init() {
 			"PV-GUARD --since: the parsed duration is not compared with a constant to choose a default",
 			"PV-API integer spellings via strconv.ParseInt only; --since only from model.ParseDuration",
 			"PV-ROLE EvalParams are not modified between the CLI and the evaluators",
+			"PV-ROLE now = time.Now() in the run function",
 		},
 		NotDecided: []string{"float rounding of fractional seconds beyond 'rounded, not truncated'", "model.ParseDuration semantics"},
 		Rules: func(r *Run) {
@@ -32,6 +33,7 @@ func init() {
 			ruleTimestampIntegerSpellings(r)
 			ruleSinceOnlyPromDuration(r)
 			ruleEvalParamsUnmodified(r)
+			ruleNowAtRunTime(r)
 		},
 	})
 }
